@@ -121,7 +121,7 @@ CHECKS = {
             {"variant": "asan", "sub": "c11", "shards": 8, "args": {"huge": 0, "commitments": 20000}, "timeout": T(tier, 1200, 7200), "env": {"VERIF_ASAN_LIGHT": "1"}},
         ],
         "rule": "cases are (message, outlen, key, chunking): message lengths 0..1100 exhaustively and every multiple of 128 +-1 up to 64 KiB, all (outlen 1..64, keylen 0..64) pairs, six chunking modes (1-byte, 128-byte, 127..129, random with empty updates, 64-byte, random); "
-                "both the one-shot and the streaming interface are compared with the model; invalid-parameter calls must fail and leave the canaried output untouched; commitments are compared with Blake2b-256(input||hash); thorough adds a 4 GiB+257 byte message; distinct by hash of the case description",
+                "both the one-shot and the streaming interface are compared with the model; invalid-parameter calls (outlen 0 and every outlen / keylen in 65..4096 plus values with bits set above bit 8, 16 and 32, through the one-shot wrapper, init and init_key followed by update + final; NULL pointers; final into a short buffer; update after final) must fail and leave the canaried output untouched; commitments are compared with Blake2b-256(input||hash); thorough adds a 4 GiB+257 byte message; distinct by hash of the case description",
         "assumptions": ["model Blake2b (RFC 7693) cross-checked against CPython hashlib.blake2b on 20000 triples at setup", "the 2^64 byte-counter carry is unreachable and not claimed"],
         "level_text": "Digest equality with an independent RFC 7693 implementation over exhaustive small lengths, all parameter pairs and many chunkings, return codes and output canaries for invalid calls, under plain and ASan/UBSan builds. Messages are sampled beyond 1100 bytes: exploration.",
         "level_note": "Trusted base: model Blake2b + hashlib. The > 4 GiB clause is exercised only in the thorough tier (one message, single update and chunked).",
@@ -195,17 +195,19 @@ CHECKS = {
     },
     "C06": {
         "level": "exploration",
-        "technique": "guard pages (PROT_NONE, 4 GiB tail) around scratchpad/dataset/cache/code buffer via link-time interposition + fault classifier, ASan/UBSan, code-area integrity hash, edge-placed I/O buffers",
+        "technique": "guard pages (PROT_NONE, 4 GiB tail) around scratchpad/dataset/cache/code buffer via link-time interposition + fault classifier, ASan/UBSan, valgrind memcheck on generated code, code-area integrity hash, edge-placed I/O buffers",
         "jobs": lambda tier: [
             {"variant": "opt", "sub": "c06", "shards": 16, "cases": T(tier, 200, 8000), "args": {"placements": T(tier, 20, 300)}, "timeout": T(tier, 1800, 10800)},
             {"variant": "asan", "sub": "c06", "shards": T(tier, 8, 16), "cases": T(tier, 40, 1500), "args": {"placements": T(tier, 10, 100)}, "timeout": T(tier, 1800, 10800)},
+            # valgrind memcheck sees the accesses of generated code as well (guards off: memcheck keeps its own shadow)
+            {"variant": "opt", "sub": "c06", "shards": T(tier, 2, 12), "cases": T(tier, 12, 120), "args": {"placements": T(tier, 2, 10), "guards": 0}, "valgrind": True, "timeout": T(tier, 1800, 10800)},
         ],
         "rule": "program cases as in C04 with emphasis on maximal-length encodings in light+v2+soft-AES (largest code), extreme immediates, every address-register choice, ma/mx=0x7fffffc0 with the maximal dataset offset (last dataset item), run by the interpreter and the (secure) JIT with every "
                 "scratchpad, cache, dataset and code buffer placed between PROT_NONE regions; per JIT run the bytes [16384, 81920) of the code buffer are hashed before/after and codePos must stay <= 16384; placement cases: input of length 0..300 and 32-byte output ending directly before a PROT_NONE page with a canary page in front, single, pipelined and commitment calls; "
                 "edge counters (measured at the interpreter hooks) show how often the first/last line/qword of each buffer was actually addressed; distinct by hash of program / placement",
         "assumptions": ["a wrong but in-range address is not a C06 matter (C04/C05)", "generated code is invisible to ASan; its accesses are judged by the guard regions (all addresses are 32-bit offsets from a base register, so a 4 GiB PROT_NONE tail catches any mask error)"],
         "level_text": "Any access outside the named buffers faults on a guard page (or trips ASan in the C++ parts) and is attributed to the running case; code generation is bounded by a read-back of the code buffer. Held on the programs explored; the evidence lists how often the buffer edges were reached.",
-        "level_note": "valgrind memcheck on generated code is not part of the gate (see DESIGN.md section 6).",
+        "level_note": "valgrind memcheck runs a sample of the same programs (2 x 12 quick, 12 x 120 thorough) as a second opinion on generated code; values are not judged under valgrind.",
     },
     "C07": {
         "level": "exploration",
@@ -229,10 +231,11 @@ CHECKS = {
         "parallel": 1,
         "rule": "per key (boundary lengths 32/0/1/12/59/60/61/64/200 then random): up to six caches ({default, JIT} x {ref, SSSE3, AVX2}), a dataset built by the compiled initialiser on 16 threads with odd range boundaries (items around every range boundary and 4000 random items are compared with the light-mode item; thorough: a second dataset by the interpreter initialiser, compared in full), "
                 "and VMs {interpreter, JIT, JIT+SECURE, SECURE without JIT} x {soft, hard AES} x {light on each cache, fast on each dataset}, some with LARGE_PAGES (served by ordinary pages through the interposed mmap), a third created with RANDOMX_FLAG_V2 and switched back with clearFlagV2, the others switched with setFlagV2, a third using first/next/last batches; "
-                "each (key, input, version) digest must be identical across all configurations; non-trivial = at least 12 configurations compared; distinct by hash of the triple",
+                "each (key, input, version) digest must be identical across all configurations; then a fast-mode sweep: 64 (thorough 600) further inputs x 2 versions through the eight fast-mode classes {interpreter, JIT, JIT+SECURE, SECURE} x {soft, hard AES} (half of them batched), all equal; "
+                "non-trivial = at least 12 configurations compared (8 in the sweep); distinct by hash of the triple",
         "assumptions": ["agreement says nothing about correctness (C02 ties the common value to the specification)", "large-page VM classes run with ordinary pages (no hugetlb pages in the sandbox)"],
         "level_text": "Every explored triple is hashed by 36 (quick) to 100+ (thorough) differently configured VM objects over separately prepared caches and datasets and all digests are compared. Keys and inputs are sampled: exploration.",
-        "level_note": "Quick explores one key with 6 inputs x 2 versions; thorough 6 keys x 40 inputs incl. the 100 000-byte input and both dataset initialisers.",
+        "level_note": "Quick explores one key with 6 inputs x 2 versions on the full matrix plus 64 inputs x 2 versions on the eight fast-mode classes; thorough 6 keys x 40 inputs incl. the 100 000-byte input and both dataset initialisers.",
     },
     "C03": {
         "level": "exploration",
@@ -272,9 +275,11 @@ CHECKS = {
             {"variant": "tsan", "sub": "c14", "shards": T(tier, 3, 8), "cases": T(tier, 1, 6), "args": {"nhashes": 2}, "timeout": T(tier, 2400, 14400), "weight": 5},
             {"variant": "opt", "sub": "c14", "shards": T(tier, 2, 6), "cases": T(tier, 2, 10), "args": {"nhashes": T(tier, 3, 6), "dataset": 1}, "timeout": T(tier, 2400, 14400), "weight": 8},
             {"variant": "tsan", "sub": "c14", "shards": T(tier, 0, 1), "cases": 2, "args": {"nhashes": 2, "dataset": 1}, "timeout": 14400, "weight": 16},
+            # the generic (non-SSE2) code paths keep their own per-thread state (fenv rounding mode): same workload on the portable build
+            {"variant": "port", "sub": "c14", "shards": T(tier, 2, 4), "cases": T(tier, 1, 6), "args": {"nhashes": 3}, "timeout": T(tier, 2400, 14400), "weight": 8},
         ],
         "parallel": 5,
-        "rule": "a case is one concurrent round with 2-8 (thorough: up to 16) threads released together: W1 threads create / hash x n / destroy their own VM of a random class (interpreter, JIT, secure JIT, secure interpreter x soft/hard AES x v1/v2) over one shared cache, W2 the same over one shared dataset (opt build; TSan build in thorough), "
+        "rule": "a case is one concurrent round with 2-8 (thorough: up to 16) threads released together: W1 threads create / hash x n / destroy their own VM of a random class (interpreter, JIT, secure JIT, secure interpreter x soft/hard AES x v1/v2) over one shared cache, W2 the same over one shared dataset (opt build; TSan build in thorough), W1 again on the forced-portable build (fenv rounding mode, generic AES/mulh), "
                 "W4 every fourth thread only touches private objects (own cache alloc / init / re-key / release, randomx_get_flags), then W3: the threads initialise disjoint dataset ranges with odd boundaries concurrently, once with the interpreter initialiser (instrumented) and once with the compiled one (write-set log); yields and short sleeps are injected between API calls; "
                 "digests and dataset items are compared with the sequential result; each distinct TSan report whose stacks lie in the repository sources is a violation; the evidence lists which pairs of API calls actually overlapped in time (call/return timestamps from one monotonic clock)",
         "assumptions": ["TSan sees all C/C++ of the library but not generated machine code: a race whose both sides are inside generated code cannot be reported; generated code only reads shared memory except the compiled dataset initialiser, which is covered by the write-set log", "races that need a weaker memory model than x86-TSO are not provoked on this host"],
